@@ -97,7 +97,7 @@ def kept_long_files(rng):
 class C09(PropBase):
     pid = "C09"
     coq_dirs = ["Base", "Gen", "C08", "C11", "C09"]
-    translators = ["symfile_loop.py", "c09_circular_mem.py", "c09_numeric.py"]
+    translators = ["symfile_loop.py", "c09_circular_mem.py", "c09_numeric.py", "c09_lines.py"]
     bins = ["c09"]
     impl_timeout = 600
     rule = ("case = input bytes (run-length encoded) + reader schedule; inputs: grammar-generated files with every record kind, "
@@ -158,10 +158,14 @@ class C09(PropBase):
                 "newline; c09_id_name_record_grammar, c09_cfi_and_line_record_grammar, c09_public_func_record_grammar, "
                 "c09_info_module_record_grammar, c09_win_inline_record_grammar), and the dispatch between kinds (PErr iff the keyword + "
                 "space is absent, cut after it, alt = first non-PErr parser) is c09_record_dispatch. Generator added: STACK WIN records "
-                "with identical / same-start / nested / overlapping / touching ranges (every branch of insert_win_stack_info, tag ok).",
+                "with identical / same-start / nested / overlapping / touching ranges (every branch of insert_win_stack_info, tag ok). "
+                "A fourth translator reads the nom line parsers of parser.rs as data (keyword of terminated(tag, space1), position of cut, "
+                "order and kind of the fields inside tuple((..)), order of the alternatives of line()); the recognisers of the model are "
+                "proved equal to the interpretation of these descriptions (c09_line_parsers_are_source; stack_win_line and inline_line "
+                "stay hand-written).",
         "note": "Trusted: Coq kernel; hand-written models of mod.rs, parser.rs and of circular 0.3.0 (indices and, since round 5, memory: "
                 "ptr::copy read as memmove, Vec::resize as append of the fill value) - correspondence-checked (events, space() contents, "
-                "callback bytes), pinned by three translators + proofs, not verified against rustc semantics. No axioms.",
+                "callback bytes), pinned by four translators + proofs, not verified against rustc semantics. No axioms.",
     }
     assumptions = ["the byte-level model of circular::Buffer (coq/C09/Circular.v) reads ptr::copy as memmove and Vec::resize as appending the fill "
                    "value; the FIFO behaviour of data() is proved from that (c09_buffer_refines_fifo), and checked on every case by comparing "
